@@ -44,3 +44,102 @@ Print Assumptions C17_blake_t_exact.
 Print Assumptions C17_blake_increase_count_exact.
 Print Assumptions C17_blake_digests.
 Print Assumptions C17_blake_examples.
+
+(* ---- c17-fromstate: digest continued from ANY entered state = specification ---- *)
+From CC Require Import Proofs.BlakeBuffer Proofs.BlakeRounds Proofs.BlakeFromState.
+From CC Require Spec.Blake.
+
+(** any compressor: [update] then [finalize] from a state entered with prior block count [K]
+    (counter = 8 * block bytes * K bits, modulo 2^(2w) as in the format), chaining state [c], buffer
+    holding [buffered]: the compressor is fed exactly the specified (block, counter) schedule
+    continued at block [K] over buffered ++ tail *)
+Theorem C17_blake_update_finalize_from_state :
+  forall (v : Spec.Blake.variant) (w : N) (wb : nat) (isfull : bool),
+  (w = 32%N /\ wb = 4) \/ (w = 64%N /\ wb = 8) ->
+  Spec.Blake.wbits v = w -> Spec.Blake.wbytes v = wb ->
+  Spec.Blake.marker v = (if isfull then 1 else 0)%N ->
+  forall (H : Type) (put : H -> list N -> N * N -> H) (K : N) (c : H) (b : bb) (buffered tail : list N),
+  wfb (16 * wb) b -> content b = buffered ->
+  finalize H put w wb isfull
+    (update H put w wb (Hasher H c b (tpair w (8 * N.of_nat (16 * wb) * K))) tail)
+  = Some (fold_left (putf w H put) (Spec.Blake.schedule_from v K (buffered ++ tail)) c).
+Proof. exact update_finalize_from. Qed.
+
+(** the four hashers, in the terms of the correspondence check (Run/Blake.v, case [BH]): chaining
+    value = any 8 words [hw], counter words [t0], [t1] below 2^w representing a whole number of
+    blocks, any buffered prefix shorter than a block, any tail: [digest_from] (no panic) equals
+    [Spec.Blake.hash_from] at block index (t0 + t1 * 2^w) / (8 * block bytes) *)
+Theorem C17_blake224_from_state_eq_spec :
+  forall (hw : list N) (t0 t1 : N) (buffered tail : list N),
+  length hw = 8 -> (t0 < 2 ^ 32)%N -> (t1 < 2 ^ 32)%N ->
+  ((t0 + t1 * 2 ^ 32) mod 512 = 0)%N -> length buffered < 64 ->
+  digest_from put_block32 32 4 false 28 (firstn 4 hw, skipn 4 hw) t0 t1 buffered tail
+  = Some (Spec.Blake.hash_from Spec.Blake.blake224 hw
+            ((t0 + t1 * 2 ^ Spec.Blake.wbits Spec.Blake.blake224) / (8 * Spec.Blake.block_N Spec.Blake.blake224))%N
+            (buffered ++ tail)).
+Proof. exact blake224_from_state_words. Qed.
+Theorem C17_blake256_from_state_eq_spec :
+  forall (hw : list N) (t0 t1 : N) (buffered tail : list N),
+  length hw = 8 -> (t0 < 2 ^ 32)%N -> (t1 < 2 ^ 32)%N ->
+  ((t0 + t1 * 2 ^ 32) mod 512 = 0)%N -> length buffered < 64 ->
+  digest_from put_block32 32 4 true 32 (firstn 4 hw, skipn 4 hw) t0 t1 buffered tail
+  = Some (Spec.Blake.hash_from Spec.Blake.blake256 hw
+            ((t0 + t1 * 2 ^ Spec.Blake.wbits Spec.Blake.blake256) / (8 * Spec.Blake.block_N Spec.Blake.blake256))%N
+            (buffered ++ tail)).
+Proof. exact blake256_from_state_words. Qed.
+Theorem C17_blake384_from_state_eq_spec :
+  forall (hw : list N) (t0 t1 : N) (buffered tail : list N),
+  length hw = 8 -> (t0 < 2 ^ 64)%N -> (t1 < 2 ^ 64)%N ->
+  ((t0 + t1 * 2 ^ 64) mod 1024 = 0)%N -> length buffered < 128 ->
+  digest_from put_block64 64 8 false 48 (firstn 4 hw, skipn 4 hw) t0 t1 buffered tail
+  = Some (Spec.Blake.hash_from Spec.Blake.blake384 hw
+            ((t0 + t1 * 2 ^ Spec.Blake.wbits Spec.Blake.blake384) / (8 * Spec.Blake.block_N Spec.Blake.blake384))%N
+            (buffered ++ tail)).
+Proof. exact blake384_from_state_words. Qed.
+Theorem C17_blake512_from_state_eq_spec :
+  forall (hw : list N) (t0 t1 : N) (buffered tail : list N),
+  length hw = 8 -> (t0 < 2 ^ 64)%N -> (t1 < 2 ^ 64)%N ->
+  ((t0 + t1 * 2 ^ 64) mod 1024 = 0)%N -> length buffered < 128 ->
+  digest_from put_block64 64 8 true 64 (firstn 4 hw, skipn 4 hw) t0 t1 buffered tail
+  = Some (Spec.Blake.hash_from Spec.Blake.blake512 hw
+            ((t0 + t1 * 2 ^ Spec.Blake.wbits Spec.Blake.blake512) / (8 * Spec.Blake.block_N Spec.Blake.blake512))%N
+            (buffered ++ tail)).
+Proof. exact blake512_from_state_words. Qed.
+
+(** debug profile, from such an entered state (any compressor): no overflow-checked operation of
+    [increase_count] fires in the update nor in finalize while entered bits + 8 * (buffered + tail)
+    stays below the format limit 2^64 resp. 2^128 *)
+Theorem C17_blake32_from_state_no_overflow :
+  forall (t0 t1 : N) (buffered tail : list N),
+  (t0 < 2 ^ 32)%N -> (t1 < 2 ^ 32)%N -> ((t0 + t1 * 2 ^ 32) mod 512 = 0)%N -> length buffered < 64 ->
+  forall (X : Type) (put : X -> list N -> N * N -> X) (c : X),
+  (t0 + t1 * 2 ^ 32 + 8 * N.of_nat (length buffered + length tail) < 2 ^ 64)%N ->
+  let s0 := Hasher X c (fst (input_block (bb_new 64) buffered)) (t0, t1) in
+  update_overflows X 32 4 s0 tail = false
+  /\ finalize_overflows X 32 (update X put 32 4 s0 tail) = false.
+Proof. exact blake32_from_state_no_overflow. Qed.
+Theorem C17_blake64_from_state_no_overflow :
+  forall (t0 t1 : N) (buffered tail : list N),
+  (t0 < 2 ^ 64)%N -> (t1 < 2 ^ 64)%N -> ((t0 + t1 * 2 ^ 64) mod 1024 = 0)%N -> length buffered < 128 ->
+  forall (X : Type) (put : X -> list N -> N * N -> X) (c : X),
+  (t0 + t1 * 2 ^ 64 + 8 * N.of_nat (length buffered + length tail) < 2 ^ 128)%N ->
+  let s0 := Hasher X c (fst (input_block (bb_new 128) buffered)) (t0, t1) in
+  update_overflows X 64 8 s0 tail = false
+  /\ finalize_overflows X 64 (update X put 64 8 s0 tail) = false.
+Proof. exact blake64_from_state_no_overflow. Qed.
+
+(** states reached from [new] by hashing meet the hypotheses; instances around the carries with a
+    symbolic chaining value *)
+Definition C17_blake_from_state_examples :=
+  (blake256_reached_state_meets_hypotheses, blake256_reachable_shape, blake512_reachable_shape,
+   blake256_from_state_below_2_32, blake256_from_state_above_2_32, blake256_no_overflow_below_2_32,
+   blake512_from_state_below_2_64).
+
+Print Assumptions C17_blake_update_finalize_from_state.
+Print Assumptions C17_blake224_from_state_eq_spec.
+Print Assumptions C17_blake256_from_state_eq_spec.
+Print Assumptions C17_blake384_from_state_eq_spec.
+Print Assumptions C17_blake512_from_state_eq_spec.
+Print Assumptions C17_blake32_from_state_no_overflow.
+Print Assumptions C17_blake64_from_state_no_overflow.
+Print Assumptions C17_blake_from_state_examples.
